@@ -75,7 +75,11 @@ def same_crs_pair(rng: random.Random, kind: Optional[str] = None, ttol: float = 
         # sub-pixel residue measured in pixels of the *shrunk* source (what the tolerance is about): s times larger in source pixels
         rho_x, rho_y = (rng.choice([0, 0.2, -0.2, 0.9, -0.9, 0.5]) * ttol, rng.choice([0, 0.3, -0.8]) * ttol) if rng.random() < 0.4 else (0.0, 0.0)
         P = Affine.translation(tx + rho_x * s, ty + rho_y * s) * Affine.scale(s + near, s + near)
-        paste = abs(near) < stol and whole
+        # what counts is the shift measured in pixels of the shrunk source: a native offset of 15 with s = 16 is -1/16 of a shrunk pixel away from whole
+        TXs, TYs = (tx + rho_x * s) / s, (ty + rho_y * s) / s
+        f = max(abs(TXs - round(TXs)), abs(TYs - round(TYs)))
+        whole_ = True if f < 0.95 * ttol else False if f > 1.05 * ttol else None
+        paste = None if whole_ is None else (abs(near) < stol and whole_)
         k_scale = s if paste else None
         if abs(near) > 0 and (rho_x or rho_y):
             paste = None  # scale error x translation may or may not stay within tolerance: not labelled
